@@ -114,4 +114,13 @@ REG = {
         'after that call. The files left behind must equal the content before or after the interrupted operation (taken from an uncrashed reference run), and a process '
         'restarted on them must have exactly the resources and observers of one of those two states and must send Observe values greater than any sent before the kill.',
    note='Kill = process death (kernel buffers survive); power loss / fsync ordering is not modelled. Quick tier samples up to 45 kill indices per history, thorough takes all.'),
+ 'C13': dict(module='lock', engine='lock', category='model_checking', design_ref='4/C13',
+   technique='TLA+ spec Lock (TLC: mutual exclusion, no leak, no deadlock over all interleavings) + trace validation of real multi-threaded runs with link-time mutex taps',
+   text='Lock.tla models the global lock protocol (API entry, kept and released callbacks with re-entry, the I/O wait) and TLC checks mutual exclusion, that nothing stays '
+        'locked when every thread is outside, count consistency and deadlock freedom for 3 threads at nesting depth 3; the callback macro as it was written in the tree is shown '
+        'to violate NoLeak. Real runs: 2-8 worker threads issue send / notify / session create+release / resource add+delete / cache / ping calls on one context while another '
+        'thread sits in coap_io_process(), all callback types re-enter the API; pthread_mutex_lock/unlock on the library\'s global mutex are tapped at link time and TLC validates '
+        'that every serialised public call held the lock, acquisitions alternate with releases, nothing is held after a top-level call returns and every call returns.',
+   note='When coap_threadsafe_is_supported() reports 0 the property is vacuous and the run is counted as such. Only the CMake configuration is built. A rejection or abort '
+        'counts only if an immediate re-run repeats it. Known finding KF_C13_ITERATION_ACROSS_RELEASED_CALLBACK is reported, not failed.'),
 }
